@@ -194,3 +194,14 @@ Definition pn_coeffs (n : Z) : list (Z * nat) :=
 Definition P_n_even (x : Q) (n : Z) : Q :=
   (fold_left Qplus (map (fun ce => (inject_Z (fst ce) * qpow x (snd ce))%Q) (pn_coeffs n)) 0%Q
    * qpow (1 # 2) (Z.to_nat n))%Q.
+
+(* P_n for either parity, as a polynomial in mu >= 0 with x = mu^2: the loop adds  +-C(n,k) C(2n-2k,n) * x ** (0.5*(n-2k)),
+   and x ** ((n-2k)/2) = mu^(n-2k) (half-integer powers of x for odd n).  [pn_terms n]: signed factor and the exponent
+   of mu, term by term of the loop. *)
+Definition pn_terms (n : Z) : list (Z * nat) :=
+  map (fun k => ((if k mod 2 =? 0 then 1 else -1) * (choose n k * choose (2 * n - 2 * k) n), Z.to_nat (n - 2 * k)))
+      (range (n / 2 + 1)).
+
+Definition P_n_mu (mu : Q) (n : Z) : Q :=
+  (fold_left Qplus (map (fun ce => (inject_Z (fst ce) * qpow mu (snd ce))%Q) (pn_terms n)) 0%Q
+   * qpow (1 # 2) (Z.to_nat n))%Q.
